@@ -289,6 +289,92 @@ class Conc:
             finally:
                 self.quiet = q
 
+    # ------------------------------------------------------------------ promised channels / prompt waits (C09: closing never hangs)
+    def chan_key(self, ch):
+        return str(ch.ref)
+
+    def promise(self, st, ch):
+        """a value is available on ch, or will be delivered without further input"""
+        if isinstance(ch, ChanV):
+            st.ghost["promised"] = (st.ghost.get("promised") or frozenset()) | {self.chan_key(ch)}
+
+    def is_promised(self, st, ch):
+        if not isinstance(ch, ChanV):
+            return False
+        nil = ch.nil
+        if nil is True or (not isinstance(nil, bool) and not z3.is_false(z3.simplify(to_bool(nil))) and st.feasible(to_bool(nil))):
+            return False
+        return self.chan_key(ch) in (st.ghost.get("promised") or frozenset())
+
+    def send_is_nonblocking(self, st, ch):
+        """a send on a buffered channel this activation made, with fewer sends so far than its capacity"""
+        cap = st.ghost.get(("chancap", self.chan_key(ch)))
+        if cap is None:
+            return False
+        sends = sum(1 for e in st.trace if e.kind == "chan" and e.name in ("send", "select-send") and e.args and isinstance(e.args[0], ChanV)
+                    and self.chan_key(e.args[0]) == self.chan_key(ch))
+        return sends < cap
+
+    def promises_of(self, st, decl, fname, args, extra_names=None):
+        """channels named by the `promises` clauses of decl, evaluated with the given arguments (free variables first)"""
+        fn = self.ir.funcs.get(fname)
+        names = dict(extra_names or {})
+        if fn is not None:
+            fvn = [p["name"] for p in (fn.get("freevars") or [])]
+            pn = [p["name"] for p in fn["params"]]
+            ps = fvn + pn if len(args) == len(fvn) + len(pn) else (fvn if fvn and len(args) == len(fvn) else pn)
+            for n, a in zip(ps, args):
+                names.setdefault(n, a)
+        res = []
+        for cl in decl.clauses:
+            if cl.kind != "promises":
+                continue
+            if cl.ast is None:
+                cl.ast = parse_expr(cl.text)
+            ctx = SpecCtx(self, st, st, names, fr_pkg=(fn["pkg"] if fn else decl.pkg))
+            v = ctx.eval(cl.ast)
+            if isinstance(v, ChanV):
+                res.append((cl, v))
+        return res
+
+    def on_go(self, fr, st, ins, name, args):
+        d = self.contract_for(name) if isinstance(name, str) else None
+        if d is not None:
+            try:
+                for (cl, ch) in self.promises_of(st, d, name, args):
+                    if self.send_is_nonblocking(st, ch):
+                        self.promise(st, ch)     # the goroutine's one send cannot block: this activation made the channel with room for it
+            except (SpecError, Unsupported):
+                pass
+
+    def may_block_funcs(self):
+        """functions that can reach a channel wait (receive, send, select without default) through static calls"""
+        if getattr(self, "_may_block", None) is not None:
+            return self._may_block
+        ir = self.ir
+        direct, edges = set(), {}
+        for name, fn in ir.funcs.items():
+            outs = set()
+            for b in fn["blocks"]:
+                for i in b["instrs"]:
+                    op = i["op"]
+                    aux = i.get("aux") or {}
+                    if op == "Send" or (op == "Select" and aux.get("blocking")) or (op == "UnOp" and aux.get("op") == "<-"):
+                        direct.add(name)
+                    elif op in ("Call", "Defer") and aux.get("callee") and aux.get("mode") in ("static", "closure"):
+                        outs.add(aux["callee"])
+            edges[name] = outs
+        rel = set(direct)
+        changed = True
+        while changed:
+            changed = False
+            for n, outs in edges.items():
+                if n not in rel and outs & rel:
+                    rel.add(n)
+                    changed = True
+        self._may_block = rel
+        return rel
+
     def struct_type_at(self, p):
         """(struct type, object pointer) that contains the field addressed by p (a pointer to a field)"""
         if not p.path:
